@@ -296,7 +296,8 @@ class HalfSplineDisk(QuarterSplineDisk):
     @property
     def grid(self) -> List[List[Face]]:
         if len(self.faces) > 3:
-            return [self.faces[:2], self.faces[2:]]
+            # each merged quarter contributes [core, shell, shell]
+            return [self.faces[::3], [face for i, face in enumerate(self.faces) if not i % 3 == 0]]
         else:
             return super().grid
 
